@@ -193,6 +193,16 @@ func rootsStreams(b *harness.B, share, shares int) {
 						b.Count("non_leaf_aligned_streams_rejected", 1)
 					}
 				}
+				// a stream that ends by reporting truncation: the streaming root must come back (root of what was
+				// received, or the error)
+				if cs.Mode == "random" || L == 0 {
+					tr := &truncatedReader{data: data}
+					if _, err := f(tr); err != nil {
+						b.Count("truncated_streams_reported_as_error", 1)
+					} else {
+						b.Count("truncated_streams_returned_a_root", 1)
+					}
+				}
 				// an I/O error must not be swallowed (observed only; not part of the statement)
 				if L > 0 {
 					cr := newChunkReader(data, cs, seed)
